@@ -205,6 +205,28 @@ def build_program(rs):
 
             ns["setup"] = setup_late
         ns["execute"] = _cb(f"{n}.execute")
+        if c.get("rebind_exec") and not late and not c.get("sm"):
+            def _tag_of(self, _t=f"{n}.execute"):
+                name = getattr(getattr(self, "logger", None), "name", None)
+                return f"{name}.execute" if name in CTX.shared_names else _t
+
+            def class_execute(self, _tag_of=_tag_of):
+                # reached through the instance attribute while that is set = a stale reference to the class version
+                CTX.hit(_tag_of(self) + ("<class-level execute called although the instance rebound it>" if "execute" in self.__dict__ else ""))
+
+            def en_rebind(self, _inner=ns.get("on_enable"), _tag_of=_tag_of):
+                if _inner is not None:
+                    _inner(self)
+                self.execute = lambda: CTX.hit(_tag_of(self))
+
+            def dis_unbind(self, _inner=ns.get("on_disable")):
+                if _inner is not None:
+                    _inner(self)
+                self.__dict__.pop("execute", None)
+
+            ns["execute"] = class_execute
+            ns["on_enable"] = en_rebind
+            ns["on_disable"] = dis_unbind
         for attr, default in c.get("resets", {}).items():
             ns[attr] = will_reset_to(NO_TARGET if default == "<NO_TARGET>" else default)
             CTX.snap_attrs.append((n, attr))
@@ -645,7 +667,7 @@ def tags(step):
 
 _I = st.integers
 _FB_CODE = st.tuples(_I(0, 7), _I(0, 2), _I(0, 13), st.lists(_I(0, 19), min_size=1, max_size=3))
-_COMP_CODE = st.tuples(_I(0, 7), _I(0, 2), _I(0, 1), _I(0, 1), st.lists(_FB_CODE, max_size=2), _I(0, 4))
+_COMP_CODE = st.tuples(_I(0, 15), _I(0, 2), _I(0, 1), _I(0, 1), st.lists(_FB_CODE, max_size=2), _I(0, 4))
 _ROBOT_CODE = st.tuples(
     st.lists(_COMP_CODE, max_size=4), _I(0, 4), _I(0, 255), st.booleans(), _I(0, 5),
     st.lists(st.booleans(), max_size=2), _I(0, 6), st.lists(_FB_CODE, max_size=2),
@@ -714,6 +736,10 @@ def decode_robot(code):
             c["fb_overridden"] = True
         if rv == 0 and c["setup"] and not c.get("sm"):
             c["late_hooks"] = True
+        if flags & 8 and not c.get("sm") and not c.get("late_hooks"):
+            # the component swaps its own execute on the instance while enabled (self.execute = self._homing in
+            # on_enable(), removed again in on_disable()): "execute() of the component" is whatever the attribute is then
+            c["rebind_exec"] = True
         c["resets"] = {(f"_r{j}" if (rv + j) % 3 == 0 else f"r{j}"): RESET_VALUES[(rv + j) % 5] for j in range(nres)}  # markers may be private names too
         c["base_resets"] = {f"b{j}": RESET_VALUES[(rv + 2 + j) % 5] for j in range(nbres)}
         if nres == 2 and flags % 4 == 3:
